@@ -5,6 +5,9 @@
 // SubRoute groups, per-handler plug-ins) plus a list of CALL / PUSH messages, each with at
 // most one scripted non-OK verdict. A small reference model (chain) says which plug-ins are
 // applicable to a message at each stage; the oracle asserts only the clauses of the property.
+// Scenario class "plugin-pairs" (genPairs) adds messages for which two or three plug-ins on the
+// chains of the same message misbehave independently (refusal + panicking / refusing reply hook,
+// two refusals, refusal + verdict of the caller's plug-in, handler fault + reply hook, ...).
 package main
 
 import (
@@ -162,6 +165,15 @@ type Veto struct {
 	Stage  string `json:"stage"`
 }
 
+// Act is one more scripted plug-in behaviour for the same message, independent of Veto (scenario class
+// "plugin-pairs": several plug-ins on one chain each doing something other than "OK" for one message).
+type Act struct {
+	Side   string `json:"side"` // src | dst
+	Plugin string `json:"plugin"`
+	Stage  string `json:"stage"`
+	Do     string `json:"do"` // status: the hook returns a non-OK status of its own | panic: the hook panics
+}
+
 type Msg struct {
 	ID    string `json:"id"`
 	From  string `json:"from"` // A | B
@@ -169,6 +181,9 @@ type Msg struct {
 	Route int    `json:"route"`
 	Sub   int    `json:"sub,omitempty"` // method index for controller routes
 	Veto  *Veto  `json:"veto,omitempty"`
+	// Also: further scripted behaviours of (other) plug-ins for this message; Pair names the pair class
+	Also []Act  `json:"also,omitempty"`
+	Pair string `json:"pair,omitempty"`
 	// Fault is what the handler of a CALL does instead of answering OK (reply-side fault classes):
 	// err | panic | unmarshal:<codec id> | big | slow
 	Fault string `json:"fault,omitempty"`
@@ -580,6 +595,7 @@ type entry struct {
 	Link  string
 	Ctx   uintptr
 	Veto  bool
+	Panic bool // the hook panicked (scripted) after this entry was recorded
 	Code  int32
 	Route string
 }
@@ -592,13 +608,15 @@ type script struct {
 	link  string // PreReadHeader: the dedicated link the veto is armed for
 	code  int32
 	msg   string
+	do    string // "" / status: return the status | panic
 }
 
 type run struct {
 	mu     sync.Mutex
 	trace  []entry
 	seqMid map[string]string // link/originSide/seq -> message id
-	sc     *script
+	sc     *script           // the message's (first) scripted verdict
+	also   []*script         // further scripted behaviours for the same message (Msg.Also)
 	peers  [2]erpc.Peer
 	// results of the Remove calls of the registration scripts
 	removes []removeRes
@@ -691,7 +709,14 @@ func (b *base) record(stage int, sess erpc.CtxSession, ctx interface{}, msg erpc
 			hit = sc
 		}
 	}
-	if hit != nil {
+	for _, sc := range r.also {
+		if hit == nil && sc.side == b.side && sc.plug == b.name && sc.stage == stage && stage != sPreReadHeader && sc.mid == e.Mid {
+			hit = sc
+		}
+	}
+	if hit != nil && hit.do == "panic" {
+		e.Panic = true
+	} else if hit != nil {
 		e.Veto = true
 		e.Code = hit.code
 	}
@@ -702,16 +727,24 @@ func (b *base) record(stage int, sess erpc.CtxSession, ctx interface{}, msg erpc
 
 func (b *base) w(stage int, c erpc.WriteCtx) *erpc.Status {
 	if sc := b.record(stage, c.Session(), c, c.Output()); sc != nil {
-		return erpc.NewStatus(sc.code, sc.msg, nil)
+		return sc.act()
 	}
 	return nil
 }
 
 func (b *base) rd(stage int, c erpc.ReadCtx) *erpc.Status {
 	if sc := b.record(stage, c.Session(), c, c.Input()); sc != nil {
-		return erpc.NewStatus(sc.code, sc.msg, nil)
+		return sc.act()
 	}
 	return nil
+}
+
+// act carries out the scripted behaviour (the trace entry has been written, no lock is held).
+func (sc *script) act() *erpc.Status {
+	if sc.do == "panic" {
+		panic("c09: scripted panic: " + sc.msg)
+	}
+	return erpc.NewStatus(sc.code, sc.msg, nil)
 }
 
 func (b *base) hdr(c erpc.PreCtx) error {
@@ -988,7 +1021,221 @@ func genConfig(r *core.Rand, nmsg int) *Config {
 	}
 	genReplyFaults(core.NewRand(int64(r.Uint64()>>1), 17), c)
 	genContainerOps(core.NewRand(int64(r.Uint64()>>1), 23), c)
+	genPairs(core.NewRand(int64(r.Uint64()>>1), 29), c, npair)
 	return c
+}
+
+// Scenario class "plugin-pairs" (a fourth pass with its own PRNG stream: the placements and the messages of the earlier
+// passes are unchanged): npair further messages per configuration for which TWO (sometimes three) plug-ins on the chains
+// of the message each do something other than answering OK - independent plug-ins installed together:
+//
+//	veto+reply-panic    a non-OK verdict before the handler (PostReadCallHeader / PreReadCallBody / PostReadCallBody; global,
+//	                    group or handler-level plug-in) and a PreWriteReply / PostWriteReply hook on the chain of the reply
+//	                    that panics for the reply carrying the refusal
+//	veto+reply-status   the same with a reply hook that returns a non-OK status of its own
+//	veto+reply-both     a refusal, a PreWriteReply status and a PostWriteReply panic (three plug-in behaviours)
+//	veto+veto           two non-OK verdicts at different hook positions before the handler (the first one recorded counts)
+//	caller-veto+veto    two plug-ins of the caller both refuse in PreWriteCall / PreWritePush (the first one recorded counts, nothing is written)
+//	veto+caller-verdict a refusal by the receiver and a non-OK verdict of a plug-in of the caller (PostWriteCall or a reply-read stage)
+//	fault+reply-act     a handler fault (err / panic / unmarshal / big) and a reply hook that panics or returns a status
+//	reply-act+reply-act two reply hooks misbehaving for an ordinary reply
+//	body-panic          PostReadCallBody / PostReadPushBody panics (recovered by handleCall / handlePush), alone or after / before
+//	                    another behaviour
+//
+// Panics are scripted only at stages that run inside handleCall / handlePush (PostReadCallBody, PreWriteReply,
+// PostWriteReply, PostReadPushBody): these recover. PreReadHeader is never part of a pair (it ends the session).
+var pairKindsCall = []string{"veto+reply-panic", "veto+reply-panic", "veto+reply-panic", "veto+reply-panic", "veto+reply-status", "veto+reply-status",
+	"veto+reply-both", "veto+veto", "veto+veto", "veto+caller-verdict", "fault+reply-act", "fault+reply-act", "reply-act+reply-act", "body-panic", "caller-veto+veto"}
+var pairKindsPush = []string{"veto+veto", "veto+veto", "veto+caller-verdict", "body-panic", "body-panic", "caller-veto+veto"}
+var pairFaults = []string{"err", "panic", "unmarshal:j", "unmarshal:p", "unmarshal:s", "big"}
+
+var npair = 4
+
+func genPairs(r *core.Rand, c *Config, n int) {
+	base := len(c.Msgs)
+	for i := 0; i < n; i++ {
+		var m Msg
+		for try := 0; try < 8; try++ {
+			m = Msg{ID: fmt.Sprintf("m%02d", base+i), From: sideName[r.Intn(2)], Kind: "call"}
+			if r.Intn(5) == 0 {
+				m.Kind = "push"
+			}
+			dst := c.peer(1 - sideIdx(m.From))
+			want := map[string]string{"call": "ucall", "push": "upush"}[m.Kind]
+			var cand []*Op
+			for j := range dst.Ops {
+				if k := dst.Ops[j].Kind; k == m.Kind || k == want {
+					cand = append(cand, &dst.Ops[j])
+				}
+			}
+			if len(cand) > 0 && r.Intn(16) != 0 {
+				op := cand[r.Intn(len(cand))]
+				m.Route = op.ID
+				if pe := poolFind(op.Kind, op.Fn); pe != nil && pe.subs > 0 {
+					m.Sub = r.Intn(pe.subs)
+				}
+			}
+			kinds := pairKindsCall
+			if m.Kind == "push" {
+				kinds = pairKindsPush
+			}
+			m.Pair = kinds[r.Intn(len(kinds))]
+			if fillPair(r, c, &m) {
+				break
+			}
+			m.Pair, m.Veto, m.Also, m.Fault = "", nil, nil, "" // no such pair of hooks on this route: draw again; in the end an ordinary message
+		}
+		c.Msgs = append(c.Msgs, m)
+	}
+}
+
+// fillPair picks the hook positions of the pair class m.Pair on the chains of m; false when the chains have none.
+func fillPair(r *core.Rand, c *Config, m *Msg) bool {
+	hooks := expectedHooks(c, m)
+	gy, _ := chain(c.peer(1-sideIdx(m.From)), 0)
+	isGlobal := func(name string) bool {
+		for _, p := range gy {
+			if p.Name == name {
+				return true
+			}
+		}
+		return false
+	}
+	sel := func(side string, globalOnly bool, not *Veto, stages ...int) []Veto {
+		var out, other []Veto
+		for _, h := range hooks {
+			ok := false
+			for _, st := range stages {
+				ok = ok || h.Stage == stageName[st]
+			}
+			if !ok || h.Side != side || (globalOnly && !isGlobal(h.Plugin)) || (not != nil && h == *not) {
+				continue
+			}
+			out = append(out, h)
+			if not != nil && h.Plugin != not.Plugin {
+				other = append(other, h)
+			}
+		}
+		if len(other) > 0 && r.Intn(5) != 0 { // mostly ANOTHER plug-in; sometimes the same one may do both
+			return other
+		}
+		return out
+	}
+	pick := func(hs []Veto) *Veto {
+		if len(hs) == 0 {
+			return nil
+		}
+		v := hs[r.Intn(len(hs))]
+		return &v
+	}
+	act := func(v *Veto, do string) Act { return Act{Side: v.Side, Plugin: v.Plugin, Stage: v.Stage, Do: do} }
+	do := func() string {
+		if r.Intn(3) == 0 {
+			return "status"
+		}
+		return "panic"
+	}
+	pre := []int{sPostReadCallHeader, sPreReadCallBody, sPostReadCallBody}
+	body := sPostReadCallBody
+	if m.Kind == "push" {
+		pre = []int{sPostReadPushHeader, sPreReadPushBody, sPostReadPushBody}
+		body = sPostReadPushBody
+	}
+	// the reply to a call refused in PostReadCallHeader goes through the global container only
+	replyHooks := func(v *Veto, stages ...int) []Veto {
+		return sel("dst", v != nil && v.Stage == stageName[sPostReadCallHeader], v, stages...)
+	}
+	switch m.Pair {
+	case "veto+reply-panic", "veto+reply-status", "veto+reply-both":
+		v := pick(sel("dst", false, nil, pre...))
+		if v == nil {
+			return false
+		}
+		m.Veto = v
+		if m.Pair == "veto+reply-both" {
+			a, b := pick(replyHooks(v, sPreWriteReply)), pick(replyHooks(v, sPostWriteReply))
+			if a == nil || b == nil {
+				return false
+			}
+			m.Also = []Act{act(a, "status"), act(b, "panic")}
+			return true
+		}
+		stages := []int{sPreWriteReply}
+		if r.Intn(4) == 0 {
+			stages = []int{sPostWriteReply}
+		}
+		a := pick(replyHooks(v, stages...))
+		if a == nil {
+			return false
+		}
+		m.Also = []Act{act(a, strings.TrimPrefix(m.Pair, "veto+reply-"))}
+	case "veto+veto":
+		v := pick(sel("dst", false, nil, pre...))
+		if v == nil {
+			return false
+		}
+		w := pick(sel("dst", false, v, pre...))
+		if w == nil {
+			return false
+		}
+		m.Veto, m.Also = v, []Act{act(w, "status")}
+	case "caller-veto+veto":
+		v := pick(sel("src", false, nil, sPreWriteCall, sPreWritePush))
+		if v == nil {
+			return false
+		}
+		w := pick(sel("src", false, v, sPreWriteCall, sPreWritePush))
+		if w == nil || w.Plugin == v.Plugin {
+			return false
+		}
+		m.Veto, m.Also = v, []Act{act(w, "status")}
+	case "veto+caller-verdict":
+		v := pick(sel("dst", false, nil, pre...))
+		w := pick(sel("src", false, nil, sPostWriteCall, sPostReadReplyHeader, sPreReadReplyBody, sPostWritePush))
+		if v == nil || w == nil {
+			return false
+		}
+		m.Veto, m.Also = v, []Act{act(w, "status")}
+	case "fault+reply-act":
+		if m.Route == 0 {
+			return false
+		}
+		a := pick(sel("dst", false, nil, sPreWriteReply, sPreWriteReply, sPostWriteReply))
+		if a == nil {
+			return false
+		}
+		m.Fault = pairFaults[r.Intn(len(pairFaults))]
+		m.Also = []Act{act(a, do())}
+	case "reply-act+reply-act":
+		a := pick(sel("dst", false, nil, sPreWriteReply, sPostWriteReply))
+		if a == nil {
+			return false
+		}
+		b := pick(sel("dst", false, a, sPreWriteReply, sPostWriteReply))
+		if b == nil {
+			return false
+		}
+		m.Also = []Act{act(a, do()), act(b, do())}
+	case "body-panic":
+		p := pick(sel("dst", false, nil, body))
+		if p == nil {
+			return false
+		}
+		m.Also = []Act{act(p, "panic")}
+		switch r.Intn(3) {
+		case 0: // an earlier refusal: the panicking hook is never reached
+			if v := pick(sel("dst", false, p, pre[0], pre[1])); v != nil {
+				m.Veto = v
+			}
+		case 1: // a reply hook with a verdict of its own: never reached either, the reply comes from the recover path
+			if a := pick(sel("dst", false, nil, sPreWriteReply, sPostWriteReply)); a != nil && m.Kind == "call" {
+				m.Also = append(m.Also, act(a, do()))
+			}
+		}
+	default:
+		return false
+	}
+	return true
 }
 
 // genContainerOps is a third pass (own PRNG stream): operations on the global container after
@@ -1369,6 +1616,17 @@ func runConfig(cfg *Config, st *caseStats, distinct bool) (viols []viol, inconcl
 			}
 			st.vetoScripted++
 		}
+		var also []*script
+		for k, a := range m.Also {
+			as := &script{mid: m.ID, side: x, plug: a.Plugin, stage: stageByName(a.Stage), code: int32(2000 + 8*mi + k), msg: "veto:" + a.Plugin + ":" + a.Stage, do: a.Do}
+			if a.Side == "dst" {
+				as.side = y
+			}
+			if as.stage < 0 || as.stage == sPreReadHeader {
+				return viols, fmt.Sprintf("message %s: a further behaviour cannot be scripted at stage %q", m.ID, a.Stage)
+			}
+			also = append(also, as)
+		}
 		out := outcome{route: name}
 		setting := func(msg erpc.Message) {
 			msg.Meta().Set("Mid", m.ID)
@@ -1410,7 +1668,7 @@ func runConfig(cfg *Config, st *caseStats, distinct bool) (viols []viol, inconcl
 				sc.link = out.link
 				r.mu.Lock()
 				r.seqMid[fmt.Sprintf("%s/%d/%d", out.link, x, 1)] = m.ID
-				r.sc = sc
+				r.sc, r.also = sc, also
 				r.mu.Unlock()
 			})
 			if err != nil {
@@ -1437,7 +1695,7 @@ func runConfig(cfg *Config, st *caseStats, distinct bool) (viols []viol, inconcl
 			seqs[x]++
 			r.mu.Lock()
 			r.seqMid[fmt.Sprintf("%s/%d/%d", mainKey, x, seqs[x])] = m.ID
-			r.sc = sc
+			r.sc, r.also = sc, also
 			r.mu.Unlock()
 			w0 := conn[x].Written()
 			oldLimit := socket.MessageSizeLimit()
@@ -1482,7 +1740,7 @@ func runConfig(cfg *Config, st *caseStats, distinct bool) (viols []viol, inconcl
 			}
 		}
 		r.mu.Lock()
-		r.sc = nil
+		r.sc, r.also = nil, nil
 		r.mu.Unlock()
 		vs := r.evaluate(cfg, m, out, st, distinct)
 		viols = append(viols, vs...)
@@ -1601,7 +1859,7 @@ func (ck *checker) report(symptom, kind, class, what string) {
 
 // stage checks one stage at one side: duplicates, foreign plug-ins, registration order and, when the
 // stage is due (active), that every applicable plug-in up to the first non-OK verdict was called.
-// It returns the entry with the non-OK verdict, if one was recorded.
+// It returns the entry that ended the stage - the first non-OK verdict or panicking hook -, if one was recorded.
 func (ck *checker) stage(side int, kind string, st int, req, allowed []pref, active bool) *aent {
 	var es []*aent
 	for i := range ck.ents {
@@ -1627,8 +1885,8 @@ func (ck *checker) stage(side int, kind string, st int, req, allowed []pref, act
 	for _, e := range es {
 		seen[e.Plug]++
 		p := find(allowed, e.Plug)
-		if e.Veto && veto == nil {
-			veto = e
+		if (e.Veto || e.Panic) && veto == nil {
+			veto = e // the entry that ended the stage: a non-OK verdict, or a (scripted) panic of the hook
 		}
 		if p == nil {
 			ck.report("foreign-plugin", kind, foreignClass(ck.cfg.peer(side), e.Plug),
@@ -1797,6 +2055,9 @@ func (r *run) evaluate(cfg *Config, m *Msg, out outcome, st *caseStats, distinct
 			if e.Veto {
 				s += fmt.Sprintf(" -> non-OK %d", e.Code)
 			}
+			if e.Panic {
+				s += " -> panics"
+			}
 			rec = append(rec, s)
 		}
 		w := map[string]interface{}{"message": m, "route_name": out.route, "route_group_depth": cfg.peer(y).routeDepth(m.Route),
@@ -1837,10 +2098,38 @@ func (r *run) evaluate(cfg *Config, m *Msg, out outcome, st *caseStats, distinct
 	if out.stat != nil {
 		code, msgText = out.stat.Code(), out.stat.Msg()
 	}
+	// scripted behaviours that really happened for this message, in trace order ("<stage>-<status|panic>")
+	firedLabel := func(e *aent) string {
+		if e.Panic {
+			return stageName[e.Stage] + "-panic"
+		}
+		return stageName[e.Stage] + "-status"
+	}
+	var fired []*aent
+	callerVerdict := false // a plug-in of the caller itself returned a non-OK verdict for the call or its reply
+	for i := range ents {
+		if e := &ents[i]; e.Veto || e.Panic {
+			fired = append(fired, e)
+			if e.Side == x && e.Veto && e.Stage != sPreWriteCall && e.Stage != sPreWritePush {
+				callerVerdict = true
+			}
+		}
+	}
 	vetoChecks := func(v *aent, callerSees bool, kind string) {
 		st.vetoFired++
 		ok := true
 		cls := classOf(v.Side, v.Plug)
+		// plug-in pairs: the configuration class names the other behaviours that happened for the same message
+		for _, e := range fired {
+			if e.Idx != v.Idx {
+				cls += "+" + firedLabel(e)
+			}
+		}
+		if callerSees && callerVerdict && v.Side != x {
+			// the caller's own plug-in gave a verdict on the call / reply as well: which of the two statuses the caller
+			// is to receive is not stated
+			callerSees = false
+		}
 		if handlerRuns > 0 {
 			ok = false
 			ck.report("veto-ignored-handler-ran", kind, cls, fmt.Sprintf("%s of %s returned a non-OK verdict (code %d) but the handler of %s was invoked %d time(s)",
@@ -1881,7 +2170,12 @@ func (r *run) evaluate(cfg *Config, m *Msg, out outcome, st *caseStats, distinct
 		b1 := ck.stage(y, "call", sPreReadCallBody, ry, allowedY, active && matched && h1 == nil)
 		b2 := ck.stage(y, "call", sPostReadCallBody, ry, allowedY, active && matched && h1 == nil && b1 == nil)
 		var pre *aent
+		prePanic := false // a hook before the handler panicked: the call is answered from the recover path (no reply hook demanded)
 		for _, v := range []*aent{h1, b1, b2} {
+			if v != nil && v.Panic {
+				prePanic = true
+				break
+			}
 			if v != nil && pre == nil {
 				pre = v
 			}
@@ -1907,8 +2201,10 @@ func (r *run) evaluate(cfg *Config, m *Msg, out outcome, st *caseStats, distinct
 			fault = m.Fault
 		}
 		firstWriteFails := strings.HasPrefix(fault, "unmarshal:") || fault == "big" || m.Fault == "slow"
-		w1 := ck.stage(y, "reply", sPreWriteReply, rq, allowedY, active && fault != "panic")
-		w2 := ck.stage(y, "reply", sPostWriteReply, rq, allowedY, active && w1 == nil && fault != "panic" && !firstWriteFails)
+		// a panicking reply hook ends its stage like a non-OK verdict does (hooks after it are not demanded); after a panic
+		// in PreWriteReply the reply is written from the recover path (no PostWriteReply demanded)
+		w1 := ck.stage(y, "reply", sPreWriteReply, rq, allowedY, active && fault != "panic" && !prePanic)
+		w2 := ck.stage(y, "reply", sPostWriteReply, rq, allowedY, active && w1 == nil && fault != "panic" && !prePanic && !firstWriteFails)
 		if w1 == nil { // PostWriteReply only for a reply that went through PreWriteReply
 			seenPre := map[string]bool{}
 			for _, e := range ents {
@@ -1946,7 +2242,7 @@ func (r *run) evaluate(cfg *Config, m *Msg, out outcome, st *caseStats, distinct
 				}
 			}
 		}
-		replyOK := active && matched && pre == nil && handlerRuns > 0 && fault == ""
+		replyOK := active && matched && pre == nil && handlerRuns > 0 && fault == "" && !prePanic && !(w1 != nil && w1.Panic)
 		ck.stage(x, "reply", sPreReadHeader, gx, gx, active && anchored(x) && hasReplyRead(ents, x))
 		r1 := ck.stage(x, "reply", sPostReadReplyHeader, gx, gx, active)
 		r2 := ck.stage(x, "reply", sPreReadReplyBody, gx, gx, active && r1 == nil && replyOK)
@@ -1956,7 +2252,7 @@ func (r *run) evaluate(cfg *Config, m *Msg, out outcome, st *caseStats, distinct
 				vetoPos = stageName[v.Stage]
 			}
 		}
-		if m.Veto == nil && m.Fault == "" && matched && (code != 0 || handlerRuns != 1) {
+		if m.Veto == nil && len(m.Also) == 0 && m.Fault == "" && matched && (code != 0 || handlerRuns != 1) {
 			st.unexpected++
 		}
 	} else {
@@ -1982,14 +2278,16 @@ func (r *run) evaluate(cfg *Config, m *Msg, out outcome, st *caseStats, distinct
 		for _, v := range []*aent{h1, b1, b2} {
 			if v != nil {
 				vetoPos = stageName[v.Stage]
-				vetoChecks(v, false, "push")
+				if !v.Panic { // a panicking hook is not a verdict: nothing is stated about the handler then
+					vetoChecks(v, false, "push")
+				}
 				break
 			}
 		}
 		if w1 != nil && vetoPos == "none" {
 			vetoPos = stageName[w1.Stage]
 		}
-		if m.Veto == nil && matched && handlerRuns != 1 {
+		if m.Veto == nil && len(m.Also) == 0 && matched && handlerRuns != 1 {
 			st.unexpected++
 		}
 	}
@@ -2036,6 +2334,49 @@ func (r *run) evaluate(cfg *Config, m *Msg, out outcome, st *caseStats, distinct
 					core.Distinct("nontrivial", fmt.Sprintf("removed-global-%s/%s/route-registered-before-remove/%s", side, m.Kind, later))
 				}
 			}
+		}
+	}
+	if distinct && m.Pair != "" { // evidence of the plug-in pair class: what was scripted, what happened, what the caller saw
+		var labels []string
+		var firstVeto *aent
+		for _, e := range fired {
+			labels = append(labels, firedLabel(e))
+			if e.Veto && firstVeto == nil {
+				firstVeto = e
+			}
+		}
+		scripted := len(m.Also)
+		if m.Veto != nil {
+			scripted++
+		}
+		what := "OK"
+		switch {
+		case firstVeto != nil && code == firstVeto.Code:
+			what = "the status of the first verdict"
+		case code >= 1000:
+			what = "the status of a later verdict"
+		case code != 0:
+			what = fmt.Sprintf("%d", code)
+		}
+		core.Add("pair_messages", 1)
+		core.Add("pair_"+m.Pair+"_messages", 1)
+		core.Add("pair_behaviours_scripted", int64(scripted))
+		core.Add("pair_behaviours_happened", int64(len(fired)))
+		if len(fired) >= 2 {
+			core.Add("pair_messages_with_two_or_more_behaviours_happening", 1)
+		}
+		if len(labels) == 0 {
+			labels = []string{"none"}
+		}
+		if m.Fault != "" && handlerRuns > 0 {
+			labels = append(labels, "handler-fault:"+m.Fault)
+		}
+		core.Distinct("pair_outcomes", fmt.Sprintf("%s %s: %s -> caller status: %s", m.Kind, m.Pair, strings.Join(labels, "+"), what))
+		if firstVeto != nil && firstVeto.Side == y && len(fired) >= 2 && !callerVerdict && m.Kind == "call" {
+			core.Add("pair_veto_status_judged_with_another_behaviour_happening", 1)
+		}
+		if len(fired) >= 2 || (len(fired) == 1 && m.Fault != "" && handlerRuns > 0) {
+			core.Distinct("nontrivial", fmt.Sprintf("%s/%s/pair:%s", classOf(fired[0].Side, fired[0].Plug), m.Kind, strings.Join(labels, "+")))
 		}
 	}
 	if distinct {
@@ -2177,6 +2518,13 @@ func shrink(cfg *Config, v viol) *Config {
 		if m.Fault != "" {
 			cands = append(cands, func(c *Config) bool { c.Msgs[0].Fault = ""; return true })
 		}
+		for ai := range m.Also {
+			ai := ai
+			cands = append(cands, func(c *Config) bool {
+				c.Msgs[0].Also = append(c.Msgs[0].Also[:ai:ai], c.Msgs[0].Also[ai+1:]...)
+				return true
+			})
+		}
 		for _, f := range cands {
 			if budget <= 0 {
 				break
@@ -2312,6 +2660,7 @@ func main() {
 	ncfg, nmsg, nrd := 150, 12, 60
 	if *tier == "thorough" {
 		ncfg, nmsg, nrd = 5000, 30, 640
+		npair = 10
 	}
 	// scenario class "redial": messages issued while a dialed client session is redialing (real loopback TCP)
 	for i := 0; i < nrd; i++ {
